@@ -15,3 +15,31 @@ REGISTRY['C18'] = props_paths.run
 import props_cache
 for _p in ('C06', 'C08', 'C12', 'C13'):
     REGISTRY[_p] = props_cache.run
+
+
+def _staged(*stages):
+    """Run several stages for one property; numeric coverage counts add up, the rest is kept per stage."""
+    def run(prop, report, tier, seed, replay=None):
+        merged = {}
+        for name, fn in stages:
+            if replay is not None and replay.get('input') is not None:
+                keys = set(replay['input'].keys())
+                if name == 'values' and 'spec' not in keys:
+                    continue
+                if name == 'histories' and 'history' not in keys:
+                    continue
+            before = dict(report.coverage)
+            fn(prop, report, tier, seed, replay)
+            stage_cov = {k: v for k, v in report.coverage.items() if before.get(k) != v or k not in before}
+            for k in ('evaluations', 'distinct_nontrivial', 'traces_validated_against_impl', 'correspondence_mismatches'):
+                if isinstance(stage_cov.get(k), int):
+                    merged[k] = merged.get(k, 0) + stage_cov[k]
+            merged.setdefault('stages', {})[name] = {k: stage_cov.get(k) for k in ('evaluations', 'distinct_nontrivial', 'rule', 'distribution') if k in stage_cov}
+            merged.setdefault('samples', [])
+            merged['samples'] += list(stage_cov.get('samples', []))[:2]
+        report.coverage.update(merged)
+        report.coverage['rule'] = ' || '.join(f"{n}: {st.get('rule', '')}" for n, st in merged.get('stages', {}).items())
+    return run
+
+
+REGISTRY['C09'] = _staged(('values', props_values.run), ('histories', props_cache.run_histories))
